@@ -13,6 +13,7 @@ package main
 import (
 	"fmt"
 	"sync"
+	"sync/atomic"
 	"time"
 
 	"github.com/anthdm/hollywood/actor"
@@ -22,7 +23,7 @@ func init() {
 	register(&prop{
 		id:    "C09",
 		level: "exploration",
-		rule: "PRNG scenarios: 1-40 sends x target class {never spawned, stopped, respawned then stopped, foreign address, nil} x message {string, struct, pointer, nil interface} x sender {nil, live, dead} x 0-5 live monitors x 0-3 subscribers that stopped without unsubscribing x 1-4 sender goroutines; " +
+		rule: "PRNG scenarios: 1-40 sends x target class {never spawned, stopped, respawned then stopped, foreign address (also with the id of a live local actor), nil} x message {string, struct, pointer, nil interface} x sender {nil, live, dead} x 0-5 live monitors x 0-3 subscribers that stopped without unsubscribing, subscribed before or between the live ones x 1-4 sender goroutines; 2-6 concurrent replies to one pending request; " +
 			"every undeliverable send carries a unique tag so that events are matched by identity, not by totals. Non-trivial = at least one dead-letter and one live monitor; distinct by (target classes used, subscriber population, concurrency)",
 		assumptions: []string{
 			"secondary dead letters (an event forwarded to a subscriber that has just died) are legitimate and are not counted against the user's sends; they must stay bounded",
@@ -69,10 +70,18 @@ func c09Run(c *caseCtx) (res caseResult) {
 	nDead := r.Intn(4)
 	var mons []*eventMonitor
 	var monPIDs []*actor.PID
+	// all monitors exist from the start; some subscribe now, the others only after the subscribers that
+	// have no actor behind them (the order of subscription is the caller's business)
+	early := nMon
+	if nMon > 0 && r.Intn(2) == 0 {
+		early = r.Intn(nMon + 1)
+	}
 	for i := 0; i < nMon; i++ {
 		m := &eventMonitor{}
 		p := e.Spawn(func() actor.Receiver { return m }, "mon", actor.WithID(fmt.Sprint(i)))
-		e.Subscribe(p)
+		if i < early {
+			e.Subscribe(p)
+		}
 		mons = append(mons, m)
 		monPIDs = append(monPIDs, p)
 	}
@@ -96,6 +105,33 @@ func c09Run(c *caseCtx) (res caseResult) {
 			return
 		}
 	}
+	// targets
+	stopped := e.SpawnFunc(func(*actor.Context) {}, "tgt", actor.WithID("stopped"))
+	select {
+	case <-e.Poison(stopped).Done():
+	case <-time.After(wd):
+		res.inconclusive("target did not stop")
+		return
+	}
+	var respawned *actor.PID
+	for k := 0; k < 2; k++ {
+		respawned = e.SpawnFunc(func(*actor.Context) {}, "tgt", actor.WithID("respawned"))
+		select {
+		case <-e.Stop(respawned).Done():
+		case <-time.After(wd):
+			res.inconclusive("target did not stop")
+			return
+		}
+	}
+	var liveGot int64
+	live := e.SpawnFunc(func(c *actor.Context) {
+		switch c.Message().(type) {
+		case actor.Initialized, actor.Started, actor.Stopped:
+		default:
+			atomic.AddInt64(&liveGot, 1)
+		}
+	}, "tgt", actor.WithID("live"))
+	deadSender := actor.NewPID("local", "tgt/stopped")
 	// subscriptions for PIDs that have no actor: never spawned, and subscribed only after the actor stopped
 	nGhost := r.Intn(3)
 	for i := 0; i < nGhost; i++ {
@@ -113,6 +149,11 @@ func c09Run(c *caseCtx) (res caseResult) {
 		}
 	}
 	nDead += nGhost
+	// (flushes are synchronous: every marker broadcast so far has reached the sentinel)
+	markersBeforeLate := sentinel.count(func(x any) bool { _, ok := x.(markerEvent); return ok })
+	for i := early; i < nMon; i++ {
+		e.Subscribe(monPIDs[i])
+	}
 	// redundant unsubscribes (never subscribed, twice, of a subscriber that is gone) must not cost anybody an event
 	if r.Intn(2) == 0 {
 		e.Unsubscribe(actor.NewPID("local", "never/subscribed"))
@@ -140,26 +181,6 @@ func c09Run(c *caseCtx) (res caseResult) {
 			return
 		}
 	}
-	// targets
-	stopped := e.SpawnFunc(func(*actor.Context) {}, "tgt", actor.WithID("stopped"))
-	select {
-	case <-e.Poison(stopped).Done():
-	case <-time.After(wd):
-		res.inconclusive("target did not stop")
-		return
-	}
-	var respawned *actor.PID
-	for k := 0; k < 2; k++ {
-		respawned = e.SpawnFunc(func(*actor.Context) {}, "tgt", actor.WithID("respawned"))
-		select {
-		case <-e.Stop(respawned).Done():
-		case <-time.After(wd):
-			res.inconclusive("target did not stop")
-			return
-		}
-	}
-	live := e.SpawnFunc(func(*actor.Context) {}, "tgt", actor.WithID("live"))
-	deadSender := actor.NewPID("local", "tgt/stopped")
 	// the sends
 	n := 1 + r.Intn(40)
 	nG := 1 + r.Intn(4)
@@ -176,7 +197,7 @@ func c09Run(c *caseCtx) (res caseResult) {
 		case x < 7:
 			s.class, s.target = "respawned", respawned
 		case x < 9:
-			s.class, s.target = "foreign", actor.NewPID(fmt.Sprintf("10.0.0.%d:4000", 1+r.Intn(3)), "far/away")
+			s.class, s.target = "foreign", actor.NewPID(fmt.Sprintf("10.0.0.%d:4000", 1+r.Intn(3)), pick(r, "far/away", "tgt/live", "mon/sentinel"))
 		default:
 			s.class, s.target = "nil", nil
 		}
@@ -325,8 +346,12 @@ func c09Run(c *caseCtx) (res caseResult) {
 	// each live monitor: flush it (the marker is an event, it reaches every subscriber)
 	all := append([]*eventMonitor{sentinel}, mons...)
 	for mi, m := range all {
+		missed := 0
+		if mi > early { // all[0] is the sentinel, all[1+i] is monitor i
+			missed = markersBeforeLate
+		}
 		if !waitFor(wd, func() bool {
-			return m.count(func(x any) bool { _, ok := x.(markerEvent); return ok }) >= sentinel.count(func(x any) bool { _, ok := x.(markerEvent); return ok })
+			return m.count(func(x any) bool { _, ok := x.(markerEvent); return ok }) >= sentinel.count(func(x any) bool { _, ok := x.(markerEvent); return ok })-missed
 		}) {
 			res.inconclusive("monitor %d did not receive the markers", mi)
 			return
@@ -367,6 +392,38 @@ func c09Run(c *caseCtx) (res caseResult) {
 			}
 		}
 		res.count("monitor_logs_checked", 1)
+	}
+	if g := atomic.LoadInt64(&liveGot); g != 0 {
+		res.violate("the local actor tgt/live received %d message(s); nothing was sent to it (messages for a foreign address with the same id must not be delivered locally)", g)
+	}
+	// replies to one request from several goroutines at once: Result() takes one, and no sender may be held up
+	if r.Intn(2) == 0 && res.Verdict != vViolated {
+		k := 2 + r.Intn(5)
+		resp := actor.NewResponse(e, 60*time.Second)
+		e.SpawnProc(resp)
+		var returned int64
+		for g := 0; g < k; g++ {
+			g := g
+			go func() {
+				e.SendWithSender(resp.PID(), &dlPayload{Tag: 900000 + g}, live)
+				atomic.AddInt64(&returned, 1)
+			}()
+		}
+		prog := func() int64 { return atomic.LoadInt64(&returned) }
+		if fin, _ := settle(wd, 10*time.Second, func() bool { return prog() == int64(k) }, prog); !fin {
+			if rest, where := atRest(3 * time.Second); rest {
+				res.violate("%d goroutines sent a reply to the same pending request: %d Send calls returned, the others are blocked and the process is at rest (%s): sending must never block the caller", k, prog(), where)
+			} else {
+				res.inconclusive("%d of %d replies sent (%s)", prog(), k, where)
+			}
+			return
+		}
+		v, err := resp.Result()
+		if rp, ok := v.(*dlPayload); err != nil || !ok || rp.Tag < 900000 || rp.Tag >= 900000+k {
+			res.violate("%d replies were sent to a pending request, Result() returned (%v, %v)", k, v, err)
+		}
+		res.count("concurrent_reply_rounds", 1)
+		res.count("concurrent_replies", int64(k))
 	}
 	res.count("sends", int64(n))
 	res.count("dead_letters_expected", int64(classes["never"]+classes["stopped"]+classes["respawned"]))
